@@ -254,5 +254,49 @@ pub fn explore(ex: &Ex) {
             }
         }
     });
+    // long labels: encoded lengths around every size-class threshold (a length kept in a narrow
+    // integer, a head-width change) next to short labels of every kind
+    {
+        let mut pal: Vec<RLabel> = vec![l_int(6), l_int(-25), l_int(256), l_int(65536), l_int(i64::MIN), l_text("a"), l_text("zz")];
+        let lens: &[usize] = match ex.scale {
+            Scale::Small => &[24, 254],
+            Scale::Quick => &[22, 23, 24, 253, 254, 255, 256],
+            Scale::Thorough => &[22, 23, 24, 25, 252, 253, 254, 255, 256, 257, 65532, 65533, 65534, 65535, 65536],
+        };
+        for n in lens {
+            pal.push(RLabel::Text("a".repeat(*n)));
+        }
+        pal.push(RLabel::Text(format!("{}b", "a".repeat(253))));
+        pal.push(RLabel::Text("\u{e9}".repeat(127)));
+        ex.bound("c20.long", "labels", json!(pal.len()));
+        let mut sels: Vec<Vec<usize>> = Vec::new();
+        for a in 0..pal.len() {
+            for b2 in 0..pal.len() {
+                if a == b2 {
+                    continue;
+                }
+                sels.push(vec![a, b2]);
+                if ex.scale != Scale::Small {
+                    for c in 0..pal.len() {
+                        // triples only where at least one label is long
+                        if c != a && c != b2 && (a >= 7 || b2 >= 7 || c >= 7) && (ex.scale == Scale::Thorough || (a + b2 + c) % 3 == 0) {
+                            sels.push(vec![a, b2, c]);
+                        }
+                    }
+                }
+            }
+        }
+        let chunks: Vec<&[Vec<usize>]> = sels.chunks(64).collect();
+        par_partitions(ex.rep, chunks, |chunk, l| {
+            for sel in chunk.iter() {
+                let params: Vec<(RLabel, Item)> = sel.iter().enumerate().map(|(n, i)| (pal[*i].clone(), u(n as u64))).collect();
+                let rk = RKey { kty: l_int(1), key_id: vec![], alg: None, key_ops: vec![], base_iv: vec![], params };
+                for lex in [true, false] {
+                    check_key(&rk, lex, false, l);
+                    check_key(&rk, lex, true, l);
+                }
+            }
+        });
+    }
     let _ = b(b"");
 }
